@@ -577,6 +577,47 @@ def simplify(t):
     return t
 
 
+def subst_params(t, mapping, tag=None):
+    """Replace ('param', i, name) leaves of an origin term by mapping[i] (caller-side terms) and re-simplify.
+    `tag`: call-site block numbers inside the substituted (callee) term are rewritten to f"{tag}#bb{n}" so that they
+    can never be confused with block numbers of the caller."""
+    if isinstance(t, tuple):
+        if t and t[0] == "param" and len(t) >= 2 and t[1] in mapping:
+            return mapping[t[1]]
+        if t and t[0] == "call" and len(t) >= 4 and tag is not None and isinstance(t[3], int):
+            return simplify(("call", t[1], tuple(subst_params(x, mapping, tag) for x in t[2]), f"{tag}#bb{t[3]}") + tuple(t[4:]))
+        return simplify(tuple(subst_params(x, mapping, tag) for x in t))
+    if isinstance(t, list):
+        return [subst_params(x, mapping, tag) for x in t]
+    return t
+
+
+class SubstOrigins:
+    """Origins of a callee body with its parameters bound to caller-side terms (inlined view)."""
+
+    def __init__(self, body, mapping):
+        self.body = body
+        self.base = Origins(body)
+        self.mapping = mapping
+        self.upvar_names = self.base.upvar_names
+        self.max_depth = self.base.max_depth
+
+    def _s(self, t):
+        return subst_params(t, self.mapping, self.body.path)
+
+    def of_operand(self, op, *a, **k):
+        return self._s(self.base.of_operand(op, *a, **k))
+
+    def of_place(self, pl, *a, **k):
+        return self._s(self.base.of_place(pl, *a, **k))
+
+    def of_local(self, l, *a, **k):
+        return self._s(self.base.of_local(l, *a, **k))
+
+    def of_rvalue(self, rv, *a, **k):
+        return self._s(self.base.of_rvalue(rv, *a, **k))
+
+
 def strip_identity(t, extra=()):
     """See through identity-like calls, refs, derefs, casts (recursively at the root)."""
     while True:
